@@ -87,7 +87,38 @@ def run(ctx):
                 _check_gate(ctx, "R04.1", fn, s, sink_short, gname, holds, bypass)
         return fn
 
-    scan("scan_function", "CPPInstance", "get_function", None, [("file", file_local), ("vis", vis_min)])
+    # a function that lives in a class scope is a member defined out of line: its access is decided with its class
+    # (define_method), never by the global scope's publish state (S8-C04: such a definition without a leading comment
+    # fell through to the global export, private methods included)
+    _sf = db.fn(B + "scan_function", sig_contains="CPPInstance")
+    _owner_locals = set()
+    for y in _sf.walk():
+        if y.get("k") == "decls":
+            for dd in y["d"]:
+                i0 = strip_casts(peel(dd.get("init"))) if dd.get("init") is not None else None
+                if i0 is not None and i0.get("k") == "call" and callee_short(i0) == "get_struct_type" and \
+                   not any(assigned_target(w) and (local_ref(assigned_target(w)[0]) or {}).get("d") == dd["d"] for w in _sf.walk()):
+                    _owner_locals.add(dd["d"])
+
+    def _is_owner(u):
+        u = strip_casts(peel(u)) if u is not None else None
+        return u is not None and ((u.get("k") == "call" and callee_short(u) == "get_struct_type") or (local_ref(u) or {}).get("d") in _owner_locals)
+
+    def not_a_member(atom, truth):
+        a = strip_casts(peel(atom)) if atom is not None else None
+        if a is not None and a.get("k") == "call" and callee_short(a) == "is_scoped":
+            return not truth
+        ca = G.cmp_atom(atom)
+        if ca:
+            op, x, y = ca
+            op = op if truth else G.NEG[op]
+            for u, v in ((x, y), (y, x)):
+                if _is_owner(u) and v is not None and (strip_casts(peel(v)) or {}).get("k") == "nullp":
+                    return op == "=="
+        if _is_owner(a):
+            return not truth
+        return False
+    scan("scan_function", "CPPInstance", "get_function", None, [("file", file_local), ("vis", vis_min), ("not-a-member", not_a_member)])
     scan("scan_struct_type", "", "get_type", lambda n: _is_true_arg(n, 1), [("file", file_local), ("vis", vis_min)])
     scan("scan_enum_type", "", "get_type", lambda n: _is_true_arg(n, 1), [("file", file_local), ("vis", vis_min)])
     scan("scan_manifest", "", "add_manifest", None, [("file", file_local), ("vis", vis_min)])
